@@ -302,6 +302,15 @@ def mul_ops():
         ops.append((f"quantity-times-Unit:{pk}", lambda x, pk=pk: partner(pk, x) * x.units))
         ops.append((f"Unit-times-quantity:{pk}", lambda x, pk=pk: x.units * partner(pk, x)))
         ops.append((f"quantity-over-Unit:{pk}", lambda x, pk=pk: partner(pk, x) / x.units))
+    # the Unit object of an offset scale divided by plain data (the library reads the Unit as the quantity 1 degC there)
+    ops += [
+        ("Unit-over-number", lambda x: x.units / 2.0),
+        ("Unit-over-int", lambda x: x.units / 2),
+        ("Unit-over-list", lambda x: x.units / [1.0, 2.0, 4.0]),
+        ("Unit-over-ndarray", lambda x: x.units / np.array([1.0, 2.0])),
+        ("number-over-Unit", lambda x: 2.0 / x.units),
+        ("ndarray-over-Unit", lambda x: np.array([1.0, 2.0]) / x.units),
+    ]
     ops += [
         ("unit_rmul", lambda x: unyt_quantity(1.0, Unit("m") * x.units)),
         ("unit_rmul_K", lambda x: unyt_quantity(1.0, Unit("K") * x.units)),
